@@ -67,6 +67,24 @@ def operators(seed, quick):
     return out
 
 
+def small_operators(seed):
+    """1 x 1 (unbatched) instances of every constructor that has one: for `@`, a 1 x 1 LEFT operand against a larger
+    right operand is the other way for an inner dimension of size 1 to be broadcast"""
+    from . import opbuild as ob
+    out = []
+    for cls in ob.ALL:
+        tag = "%s|[]|1|1" % cls
+        rng = SplitRng(random.Random("C19-struct-" + tag), random.Random("%d-%s" % (seed, tag)))
+        try:
+            e = ob.gen(rng, cls, batch=[], m=1, n=1, psd=False, child="Dense" if cls in ob.COMPOSITE else None)
+            if ob.shape_of(e) != [1, 1]:
+                continue
+        except Exception:
+            continue
+        out.append((tag, e))
+    return out
+
+
 # ----------------------------------------------------------------------------------------------- cases
 
 def tspec(rng, shape, lo=1, hi=3):
@@ -554,7 +572,11 @@ def run_unit(args):
     clsname = type(op).__name__
     recs = []
     rng = random.Random("%d-cases-%s" % (seed, tag))
-    for case in cases_for(sh, rng) + ctor_cases(clsname, sh, rng):
+    small = sh == [1, 1]
+    base_cases = cases_for(sh, rng) + ctor_cases(clsname, sh, rng)
+    if small:
+        base_cases = [c for c in base_cases if c["op"] in ("matmul", "rmatmul", "matmul_lo", "ctor_matmul")]
+    for case in base_cases:
         impl, ref = execute(op, D, case)
         recs.append({"tag": tag, "expr": e, "cls": clsname, "shape": sh, "case": case, "impl": impl, "torch": ref})
 
@@ -571,7 +593,11 @@ def run_unit(args):
                          "rhs_cls": rcls[0], "rhs_shape": rcls[2], "impl_of": impl_of(L, case["op"], rcls[1]), "left": left})
     B = sh[:-2]
     sq = sh[-1] == sh[-2]
-    if not (quick and B and not sq):                          # quick: rectangular batched lefts only in the tensor grid
+    if small:
+        cs = [c for c in c19_pairs.pair_cases(sh, seed, ob.ALL, "quick" if quick else "full")
+              if c["op"] in ("matmul_op", "torch_matmul")]
+        pairs(op, D, cs, "direct", None)
+    elif not (quick and B and not sq):                        # quick: rectangular batched lefts only in the tensor grid
         prng = random.Random("%d-pairs-%s" % (seed, tag))
         pairs(op, D, c19_pairs.pair_cases(sh, seed, ob.ALL, "quick" if quick else "full") + c19_pairs.reflected_cases(sh, prng),
               "direct", None)
@@ -581,8 +607,21 @@ def run_unit(args):
             L, DL = c19_pairs.derive(name, op, D, darg)
         except Exception:
             continue
-        pairs(L, DL, c19_pairs.pair_cases(list(DL.shape), seed, ob.ALL, "derived"), collapsed_signature(L),
-              {"name": name, "arg": darg})
+        dv = {"name": name, "arg": darg}
+        pairs(L, DL, c19_pairs.pair_cases(list(DL.shape), seed, ob.ALL, "derived"), collapsed_signature(L), dv)
+        # tensor operands of the composite: add_diagonal / add_low_rank (each composite class has its own add_diagonal)
+        dsh = list(DL.shape)
+        if dsh[-1] == dsh[-2]:
+            drng = random.Random("%d-dt-%s-%s" % (seed, tag, name))
+            cn = type(L).__name__
+            for case in cases_for(dsh, drng):
+                if case["op"] not in ("add_diagonal", "add_diag_lo"):
+                    continue
+                case = dict(case, derive=dv)
+                impl, ref = execute(L, DL, case)
+                recs.append({"tag": tag, "expr": e, "cls": cn, "shape": dsh, "case": case, "impl": impl, "torch": ref})
+            pairs(L, DL, [c for c in c19_pairs.reflected_cases(dsh, drng) if c["op"] == "add_low_rank"],
+                  collapsed_signature(L), dv)
     return recs
 
 
@@ -597,13 +636,15 @@ def run_grid(ctx, quick, limit_report=None):
         import multiprocessing as mp
         with mp.get_context("fork").Pool(WORKERS) as pool:
             dsel = pool.apply(select_derived, (seed, quick))
-            units = [(seed, quick, tag, e, dsel.get(tag, [])) for tag, e in operators(seed, quick)]
+            units = [(seed, quick, tag, e, dsel.get(tag, [])) for tag, e in operators(seed, quick)] + \
+                    [(seed, quick, tag, e, []) for tag, e in small_operators(seed)]
             parts = pool.map(run_unit, units, chunksize=2)
     except (OSError, ImportError, RuntimeError) as ex:        # no process pool available: same work, in process
         if hasattr(ctx, "say"):
             ctx.say("process pool unavailable (%r): running the grid in process" % (ex,))
         dsel = select_derived(seed, quick)
-        units = [(seed, quick, tag, e, dsel.get(tag, [])) for tag, e in operators(seed, quick)]
+        units = [(seed, quick, tag, e, dsel.get(tag, [])) for tag, e in operators(seed, quick)] + \
+                [(seed, quick, tag, e, []) for tag, e in small_operators(seed)]
         parts = [run_unit(u) for u in units]
     return [r for p in parts for r in p]
 
@@ -869,10 +910,10 @@ def replay(rp):
     op = ob.build(rp["expr"])
     D = ob.dense(rp["expr"])
     case = rp["case"]
+    if case.get("derive"):
+        print("left operand: %s applied to %s" % (case["derive"]["name"], type(op).__name__))
+        op, D = c19_pairs.derive(case["derive"]["name"], op, D, case["derive"]["arg"])
     if case["op"] in c19_pairs.PAIR_OPS:
-        if case.get("derive"):
-            print("left operand: %s applied to %s" % (case["derive"]["name"], type(op).__name__))
-            op, D = c19_pairs.derive(case["derive"]["name"], op, D, case["derive"]["arg"])
         impl, ref, rcls = c19_pairs.execute_pair(op, D, case, c19_pairs.attempt_shape)
         print("right operand class:", rcls[0], "dispatches to:", impl_of(op, case["op"], rcls[1]))
     else:
